@@ -20,8 +20,8 @@ def lattice(tier):
     if tier == "quick":
         Ns = list(range(8, 41)) + [100, 127, 1000]
         fss = [1.0, 0.37, 1000.0]
-        Jd = [1, 2, 3, 5, 10, 50, 500]
-        Kd = [1, 2, 5, 10, 100]
+        Jd = [1, 2, 5, 10, 50, 500]
+        Kd = [1, 2, 10, 100]
     else:
         Ns = list(range(8, 65)) + [100, 127, 1000, 4096, 10000, 100000]
         fss = [1.0, 2.0, 0.37, 1000.0]
@@ -42,7 +42,7 @@ def bmins(N):
 
 def lmins(N):
     out = []
-    for v in (1, 2, 5, N // 4, N // 2, N):
+    for v in (1, 2, 5, N // 4, N // 2, (9 * N + 9) // 10, N - 1, N):
         if 1 <= v <= N and v not in out:
             out.append(int(v))
     return out
@@ -147,16 +147,23 @@ def check_config(prop, name, cfg):
     rg = regime(cfg, plan)
     for tag, msg in res:
         fails.append(fw.fail(f"{name}/{tag}/{rg}", f"{name}_plan({cfgkey(cfg)}): {msg}", case))
-    if prop == "C02":
+    if (prop == "C02" and cfg["Jdes"] in (1, 5, 50, 500)) or (prop == "C04" and cfg["Jdes"] in (5, 50) and cfg["Kdes"] in (2, 10)):
         aplan, aerr = call_analyzer(name, cfg)
         if aerr is not None:
             fails.append(fw.fail(f"{name}/analyzer-raises/{rg}",
                                  f"SpectrumAnalyzer(scheduler={name!r}, {cfgkey(cfg)}).plan() raised {aerr}", case))
         else:
-            ares = spec.c02(aplan, cfg, name)
+            ares = spec.c02(aplan, cfg, name) if prop == "C02" else spec.c04(aplan, cfg, name)
             for tag, msg in ares:
                 fails.append(fw.fail(f"{name}/analyzer/{tag}/{rg}",
                                      f"analyzer plan {name} ({cfgkey(cfg)}): {msg}", case))
+            # the analyzer must hand the configured parameters to the scheduler unchanged
+            diff = [k for k in ("f", "r", "b", "L", "K", "navg", "O") if not np.array_equal(np.asarray(aplan[k]), np.asarray(plan[k]))]
+            if len(aplan["D"]) != len(plan["D"]) or any(not np.array_equal(np.asarray(a), np.asarray(b)) for a, b in zip(aplan["D"], plan["D"])):
+                diff.append("D")
+            if diff:
+                fails.append(fw.fail(f"{name}/analyzer-differs/{'+'.join(diff)}",
+                                     f"SpectrumAnalyzer(scheduler={name!r}, {cfgkey(cfg)}).plan() differs from {name}_plan called with the same parameters in {diff} (analyzer nf={len(aplan['f'])}, direct nf={len(plan['f'])})", case))
     if prop == "C03" and name == "lpsd":
         p2, e2 = call_direct("ltf", dict(cfg, bmin=1.0, Lmin=1))
         if e2 is None:
